@@ -22,6 +22,44 @@ class OutBuf:
     def __init__(self): self.bytes = []
 
 
+class AbsElems:
+    """stream item standing for the encodings of all n elements of a vector of symbolic length (length-abstraction harnesses):
+    written by the Vec encode model for an ArrVec, taken whole by the Vec decode model or element-wise by a hand-written loop"""
+    def __init__(self, arr, n): self.arr, self.n, self.used = arr, n, 0
+    def same(self, o): return isinstance(o, AbsElems) and z3.eq(self.arr, o.arr) and z3.eq(self.n, o.n)
+
+
+ABS_ELEM_CAP = 3
+
+
+def pass_abs(M, i):
+    """a primitive read with an element block at the head of the input: the block must have been consumed entirely"""
+    while i.pos < len(i.bytes) and isinstance(i.bytes[i.pos], AbsElems):
+        it = i.bytes[i.pos]
+        M.aux.setdefault('abs_viol', []).append(('decoder went on after %d of the N elements of a vector' % it.used, it.n != BV64(it.used)))
+        M.add(it.n == BV64(it.used)); i.pos += 1
+
+
+def m_any_decode(M, a, c, fr):
+    """lowest-priority entry of the length-abstraction harnesses: decoding one element out of an element block yields the next opaque element;
+    anything else is the ordinary MIR of the callee"""
+    i = deref(M, a[0])
+    if isinstance(i, InBuf) and i.pos < len(i.bytes) and isinstance(i.bytes[i.pos], AbsElems):
+        it = i.bytes[i.pos]
+        if it.used >= ABS_ELEM_CAP:
+            M.emit('cut', why='hand-written element loop followed for %d iterations' % ABS_ELEM_CAP); raise PathEnd()
+        M.aux.setdefault('abs_viol', []).append(('decoder reads element %d of a vector of N elements' % it.used, z3.ULE(it.n, BV64(it.used))))
+        M.add(z3.UGT(it.n, BV64(it.used)))
+        e = z3.Select(it.arr, BV64(it.used)); it.used += 1
+        return res_ok(e)
+    fn = M.resolve(c)
+    if fn is None: raise Inconclusive('unmodelled callee: ' + c)
+    return M.run_fn(fn, a, M.callee_tenv(fn, c))
+
+
+ABS_MODELS = [(r'<.+ as Decode>::decode(::<.*>)?', m_any_decode)]
+
+
 def inbuf(M, r):
     b = deref(M, r)
     if not isinstance(b, InBuf): raise Inconclusive('codec input is %r' % (b,))
@@ -124,6 +162,8 @@ def elem_type(c, outer):
 def m_enc_vec(M, a, c, fr):
     v = deref(M, a[0]); out = outbuf(M, a[1])
     et = elem_type(c, 'Vec')
+    if isinstance(v, ArrVec):       # abstract vector: exact length prefix, then one block for all elements
+        enc_compact_u32(M, out, z3.Extract(31, 0, v.len)); out.bytes.append(AbsElems(v.data, v.len)); return []
     n = M.concrete(v.len, 'vec.len') if isinstance(v, VecV) else len(v.elems)
     enc_compact_u32(M, out, bv(n, 32))
     base = a[0]
@@ -158,13 +198,13 @@ def m_enc_ref(M, a, c, fr):
 
 # ----------------------------------------------------------------------------- decode side
 def m_read_byte(M, a, c, fr):
-    i = inbuf(M, a[0])
+    i = inbuf(M, a[0]); pass_abs(M, i)
     if i.rem() < 1: return res_err(ERR)
     b = i.bytes[i.pos]; i.pos += 1; return res_ok(b)
 
 
 def m_dec_u32(M, a, c, fr):
-    i = inbuf(M, a[0])
+    i = inbuf(M, a[0]); pass_abs(M, i)
     if i.rem() < 4: return res_err(ERR)
     b = i.bytes[i.pos:i.pos + 4]; i.pos += 4
     return res_ok(z3.simplify(z3.Concat(b[3], b[2], b[1], b[0])))
@@ -172,9 +212,12 @@ def m_dec_u32(M, a, c, fr):
 
 def dec_compact_u32(M, i):
     """returns BV32 or None (error). canonical form required, as in parity-scale-codec"""
+    pass_abs(M, i)
     if i.rem() < 1: return None
     p, bs = i.pos, i.bytes
-    b0 = bs[p]; mode = b0 & 3; rem = i.rem()
+    rem = 0
+    while p + rem < len(bs) and not isinstance(bs[p + rem], AbsElems): rem += 1
+    b0 = bs[p]; mode = b0 & 3
     alts, acts = [], []
     alts.append(mode == 0); acts.append((1, z3.ZeroExt(24, z3.LShR(b0, 2))))
     if rem >= 2:
@@ -210,6 +253,10 @@ def m_dec_vec(M, a, c, fr):
     i = inbuf(M, a[0]); et = elem_type(c, 'Vec')
     n = dec_compact_u32(M, i)
     if n is None: return res_err(ERR)
+    if i.pos < len(i.bytes) and isinstance(i.bytes[i.pos], AbsElems) and i.bytes[i.pos].used == 0:
+        it = i.bytes[i.pos]; i.pos += 1
+        M.aux.setdefault('abs_viol', []).append(('length prefix differs from the number of elements', z3.ZeroExt(32, n) != it.n))
+        return res_ok(ArrVec(z3.ZeroExt(32, n), it.arr))
     rem = i.rem()
     # every element type of scale-info's own structures occupies at least one byte: a length beyond the remaining input ends in an error
     alts = [n == k for k in range(rem + 1)] + [z3.UGT(n, rem)]
@@ -228,7 +275,8 @@ def m_dec_string(M, a, c, fr):
     i = inbuf(M, a[0])
     n = dec_compact_u32(M, i)
     if n is None: return res_err(ERR)
-    rem = i.rem()
+    rem = 0
+    while i.pos + rem < len(i.bytes) and not isinstance(i.bytes[i.pos + rem], AbsElems): rem += 1
     k = M.choose([n == k for k in range(rem + 1)] + [z3.UGT(n, rem)], 'string.decode.len')
     if k == rem + 1: return res_err(ERR)
     bs = i.bytes[i.pos:i.pos + k]; i.pos += k
@@ -239,6 +287,7 @@ def m_dec_string(M, a, c, fr):
 def m_dec_option(M, a, c, fr):
     i = inbuf(M, a[0])
     m = re.fullmatch(r'<(?:std::option::)?Option<(.+)> as Decode>::decode(::<.*>)?', c)
+    pass_abs(M, i)
     if i.rem() < 1: return res_err(ERR)
     b = i.bytes[i.pos]; i.pos += 1
     k = M.choose([b == 0, b == 1, z3.UGT(b, 1)], 'option.tag')
